@@ -15,6 +15,7 @@ pub fn generate(suite: &str, rng: &mut Rng, thorough: bool) -> (&'static str, Ve
         "control" => ("E2C", control::generate(rng, thorough, false)),
         "control_cut" => ("E2C", control::generate(rng, thorough, true)),
         "pair" => ("E2C", pair::generate(rng, thorough)),
+        "backlog" => ("E3C", session::generate_backlog(rng, thorough)),
         "emit" | "signals" | "wdgram" | "client" | "credit" => ("E2C", misc::generate(rng, thorough, suite)),
         "streams" | "foreign" | "unknown_uni" | "stall" | "pace" | "requests" => ("E2C", streams::generate(rng, thorough, suite)),
         "trace" | "cell" => ("E3C", trace::generate(rng, thorough, suite)),
@@ -25,6 +26,7 @@ pub fn generate(suite: &str, rng: &mut Rng, thorough: bool) -> (&'static str, Ve
 pub async fn exec(f: u32, args: &Args) -> Args {
     match f {
         601 => session::exec(args).await,
+        602 => session::exec_602(args).await,
         611 => control::exec(args).await,
         621 => streams::exec(args).await,
         631 => misc::exec_emit(args).await,
@@ -45,6 +47,7 @@ pub fn oracle(f: u32, args: &Args, out: &Args) -> Option<(&'static str, String)>
     }
     match f {
         601 => session::oracle(args, out),
+        602 => session::oracle_602(args, out),
         611 => control::oracle(args, out),
         621 => streams::oracle(args, out),
         631 | 632 | 641 | 651 | 661 => misc::oracle(f, args, out),
